@@ -2,11 +2,13 @@
 \* valid; every 16th graph (by pseudo-hash) is emitted for the replay.
 CONSTANTS
   Atomic = TRUE
+  DropDetached = TRUE
   Namespace = {1}
   M = 4
   MaxTs = 2
   Classes = {"ok", "needs", "badSig", "rejectFirst", "rejectLater"}
   MaxBad = 1
+  AllowDetached = FALSE
   Emit = TRUE
   EmitMod = 16
 INIT InitGraphs
